@@ -26,14 +26,14 @@ open Martian.Shutdown
 first and then waits under `connsMu`; `handleLoop` counts itself, defers `conns.Done` then
 `conn.Close` (so the connection is closed BEFORE the handler is un-counted) and checks `Closing()`
 before its serving loop; `readRequest` selects on the closing signal; `Serve` checks `Closing()` at
-the loop top and evaluates `conn.RemoteAddr()` between `Accept` and the `go` statement. -/
+the loop top, before `Accept`, and spawns the handler with a `go` statement afterwards. -/
 theorem facts_shutdown_skeleton :
     Generated.Shutdown.addSites = ["handleLoop"] ∧
     Generated.Shutdown.closeCalls = ["close", "p.connsMu.Lock", "p.conns.Wait", "p.connsMu.Unlock"] ∧
     Generated.Shutdown.handleLoopPrologue = ["p.connsMu.Lock", "p.conns.Add", "p.connsMu.Unlock", "p.Closing"] ∧
     Generated.Shutdown.handleLoopDefers = ["p.conns.Done", "conn.Close"] ∧
     Generated.Shutdown.readRequestSelectArms = ["<-errc", "<-reqc", "<-p.closing"] ∧
-    Generated.Shutdown.serveSkeleton = ["p.Closing", "l.Accept", "conn.RemoteAddr", "go p.handleLoop"] := by
+    Generated.Shutdown.serveSkeleton = ["p.Closing", "l.Accept", "go p.handleLoop"] := by
   decide
 
 /-! ### every started exchange is completed before its connection is closed -/
